@@ -3,6 +3,7 @@ package hx
 import (
 	"encoding/json"
 	"fmt"
+	"sort"
 	"strings"
 	"time"
 
@@ -42,6 +43,12 @@ func marshalPurityCases() []marshalPurityCase {
 		}},
 		{"order-stale-middle-unlisted", func() *jsonschema.Schema {
 			return &jsonschema.Schema{Properties: props("A", "B", "C"), PropertyOrder: withCap("B", "gone", "A")}
+		}},
+		{"order-sorted-subset", func() *jsonschema.Schema {
+			return &jsonschema.Schema{Properties: props("a", "b", "c", "d"), PropertyOrder: withCap("b", "d")}
+		}},
+		{"order-sorted-prefix-with-smaller-unlisted", func() *jsonschema.Schema {
+			return &jsonschema.Schema{Properties: props("a", "m", "z"), PropertyOrder: withCap("m", "z")}
 		}},
 		{"order-subset", func() *jsonschema.Schema {
 			return &jsonschema.Schema{Properties: props("A", "B", "C"), PropertyOrder: withCap("C")}
@@ -118,6 +125,14 @@ func (w *Worker) RunMarshalPurity(mc marshalPurityCase, property string) *SkelRe
 	b2, e2 := json.Marshal(s)
 	changed := DeepDump(s) != before
 	differs := (e1 == nil) != (e2 == nil) || string(b1) != string(b2)
+	// the emitted order of "properties": listed-and-present names in list order, then the rest ascending
+	if e1 == nil {
+		if got, want := propertiesKeyOrder(b1), expectedKeyOrder(s); got != nil && strings.Join(got, ",") != strings.Join(want, ",") {
+			res.Findings = append(res.Findings, Finding{Property: property, Kind: "marshal-property-order", Skeleton: res.Skeleton, Family: "F-marshalpure", Doc: "Go-constructed Schema " + mc.name + ": " + string(b1),
+				Expected: "properties in the order " + strings.Join(want, ","), Observed: strings.Join(got, ",")})
+			return res
+		}
+	}
 	switch {
 	case len(writes) == 0 && !changed && !differs:
 		res.Validated++
@@ -155,4 +170,76 @@ func (cc *CheckCtx) RunMarshalPurityFamily(r *Report) {
 		r.AddSkel(skels[i], s)
 	}
 	r.Bounds = append(r.Bounds, fmt.Sprintf("Marshal on a shared Schema: (Schema).MarshalJSON runs in the engine on %d Go-constructed schemas (stale/subset PropertyOrder, lists with spare capacity, a PropertyOrder buffer shared between parent and child) imported as shared pre-state, with json.Marshal of the intermediate struct stubbed; stores/appends/copies into the schema are violations; natively the schema is compared deeply (incl. spare capacity) around two Marshal calls whose bytes must agree", len(cases)))
+}
+
+// propertiesKeyOrder returns the member names of the top-level "properties" object of a
+// marshaled schema, in the order they appear in the bytes (nil if there is none).
+func propertiesKeyOrder(b []byte) []string {
+	dec := json.NewDecoder(strings.NewReader(string(b)))
+	depth := 0
+	inProps := false
+	expectKey := false
+	var keys []string
+	var lastKey string
+	for {
+		tok, err := dec.Token()
+		if err != nil {
+			break
+		}
+		switch t := tok.(type) {
+		case json.Delim:
+			switch t {
+			case '{', '[':
+				depth++
+				if depth == 2 && lastKey == "properties" && t == '{' {
+					inProps = true
+					keys = []string{}
+				}
+				expectKey = t == '{'
+			case '}', ']':
+				if inProps && depth == 2 {
+					return keys
+				}
+				depth--
+				expectKey = depth >= 1
+			}
+		case string:
+			if expectKey && dec.More() {
+				if depth == 1 {
+					lastKey = t
+				}
+				if inProps && depth == 2 {
+					keys = append(keys, t)
+				}
+				expectKey = false
+				continue
+			}
+			expectKey = true
+		default:
+			expectKey = true
+		}
+	}
+	return keys
+}
+
+func expectedKeyOrder(s *jsonschema.Schema) []string {
+	if len(s.Properties) == 0 {
+		return nil
+	}
+	var out []string
+	seen := map[string]bool{}
+	for _, n := range s.PropertyOrder {
+		if _, ok := s.Properties[n]; ok && !seen[n] {
+			out = append(out, n)
+			seen[n] = true
+		}
+	}
+	var rest []string
+	for n := range s.Properties {
+		if !seen[n] {
+			rest = append(rest, n)
+		}
+	}
+	sort.Strings(rest)
+	return append(out, rest...)
 }
